@@ -537,6 +537,25 @@ func (c *Ctx) lookupLocalName(name string, env *Env) *Val {
 		p := c.vals[found]
 		return c.load(p, found.Type().Underlying().(*types.Pointer).Elem(), st)
 	}
+	if n > 1 && c.curBlk != nil {
+		// several variables of that name (one per clause of a type switch, per branch): the
+		// one in scope is the one whose declaration dominates the current point; when the
+		// source scopes nest, none of this applies and the older resolution below decides
+		var dom []*ssa.Alloc
+		for _, b := range c.fn.Blocks {
+			for _, in := range b.Instrs {
+				if a, ok := in.(*ssa.Alloc); ok && a.Comment == name {
+					if _, have := c.vals[a]; have && a.Block() != c.curBlk && a.Block().Dominates(c.curBlk) {
+						dom = append(dom, a)
+					}
+				}
+			}
+		}
+		if len(dom) == 1 && !a0DebugNamed(c, name, dom[0]) {
+			p := c.vals[dom[0]]
+			return c.load(p, dom[0].Type().Underlying().(*types.Pointer).Elem(), st)
+		}
+	}
 	vs := c.dbg[name]
 	uniq := map[ssa.Value]bool{}
 	var last ssa.Value
@@ -1675,4 +1694,19 @@ func instrIndex(in ssa.Instruction) int {
 		}
 	}
 	return -1
+}
+
+// a0DebugNamed: a plain SSA value bound to the same name is defined in a block that the
+// alloc's block dominates (a nested redeclaration closer to the current point may exist).
+func a0DebugNamed(c *Ctx, name string, al *ssa.Alloc) bool {
+	for _, v := range c.dbg[name] {
+		in, ok := v.(ssa.Instruction)
+		if !ok || in.Block() == nil {
+			continue
+		}
+		if in.Block() != al.Block() && al.Block().Dominates(in.Block()) && in.Block().Dominates(c.curBlk) {
+			return true
+		}
+	}
+	return false
 }
